@@ -521,7 +521,8 @@ package generator
 // files, so a generator must start with its own, empty map (C10, C20).
 //@ func newSchemaGenerator
 //@   props C10 C20 C11 C04
-//@   option shape-zero g schema output
+//@   option shape-zero schema output
+//@   shape g = new
 //@   assigns nothing
 //@   ensures [C10,C20,C11,C04] own-ref-map: fresh_map(result.schemaTypesByRef) && len(result.schemaTypesByRef) == 0
 //@   ensures [C10,C20] carries-arguments: result.Generator == g && result.schema == schema && result.schemaFileName == fileName && result.output == output
